@@ -43,7 +43,13 @@ fn vs(a: &Value) -> Vec<i32> {
 
 // ---------------------------------------------------------------------------- Bounded
 
-fn obs_bounded<S: SliceMut<Element = i32>>(rb: Bounded<S>, canary: &dyn Fn() -> bool) -> (Bounded<S>, Value) {
+fn obs_bounded<S: SliceMut<Element = i32>>(mut rb: Bounded<S>, canary: &dyn Fn() -> bool) -> (Bounded<S>, Value) {
+    // the drain iterator's ExactSizeIterator::len / size_hint (creating it pops nothing)
+    let dlen = catch(|| {
+        let d = rb.drain();
+        let (lo, hi) = d.size_hint();
+        json!([d.len(), lo, hi.unwrap_or(usize::MAX)])
+    });
     let views = catch(|| {
         let len = rb.len();
         let cap = rb.max_len();
@@ -61,6 +67,10 @@ fn obs_bounded<S: SliceMut<Element = i32>>(rb: Bounded<S>, canary: &dyn Fn() -> 
     let mut o = views.unwrap_or_else(|| json!({"ok": false}));
     o["raw"] = raw;
     o["canary"] = json!(canary());
+    match dlen {
+        Some(d) => o["drain_len"] = d,
+        None => o["ok"] = json!(false),
+    }
     (rb, o)
 }
 
